@@ -55,6 +55,9 @@ PROPS = {
                 "`Equity:Valuation:` prefix (synthesised opens). Malformed stream: lifecycle mutations, dropped/zero prices, unpriced commodities, missing/empty/invalid -v (must fail cleanly, "
                 "empty stdout, model agrees). Stream `lifecycle` (a quarter of the main stream): 3-14 days, A/L accounts holding positions over night are emptied (wholly, one commodity, half, in two "
                 "bookings, positive or negative amounts), closed on the emptying day or later and re-opened, while prices keep moving on, between and after the journal's days. "
+                "Stream `trees` (quick 2 000): the same journals spread over 1-6 files (chains, fans, sub-directories, `./` `../` spellings, odd file names and endings, includes first/last/anywhere, "
+                "a member included twice): same bytes as the model and as the same directives in one file, all invariants against the union; two fifths with a member that cannot be loaded "
+                "(dangling include, member gone / a directory / a broken link, cycle, a line that is no directive): must fail with an empty stdout. "
                 "Fixed witness journal of the known finding. class = (outcome, feature signature, valuation, transaction-count bucket, size bucket).",
         "assumptions": ["accepted journals with sufficient prices (the command succeeds); transactions are posting pairs (everything the loader builds)"],
         "trusted": ["known finding valuation-account-not-opened: generated valuation accounts are never opened (C16_valuation_account_not_opened)"],
